@@ -17,9 +17,9 @@ PA = "dataiter/aggregate.py::"
 HELPER_NAMES = ["all", "any", "count", "count_na", "count_unique", "first", "last", "nth1", "nth_m2", "min", "max", "max_keep",
                 "mode", "mean", "median", "quantile", "std", "var", "sum", "first_drop",
                 "count_unique_drop", "quantile_keep", "mean_keep", "median_keep", "min_keep", "sum_keep", "std_keep", "var_keep", "mode_keep",
-                "last_drop", "nth1_drop"]
+                "last_drop", "nth1_drop", "std_ddof1", "var_ddof1"]
 GENERIC = {"all", "any", "count", "count_na", "min", "max", "max_keep", "mean", "median", "std", "var", "sum",
-           "mean_keep", "median_keep", "min_keep", "sum_keep", "std_keep", "var_keep"}
+           "mean_keep", "median_keep", "min_keep", "sum_keep", "std_keep", "var_keep", "std_ddof1", "var_ddof1"}
 NTH = {"first", "last", "nth1", "nth_m2", "first_drop", "last_drop", "nth1_drop"}
 
 
@@ -69,7 +69,7 @@ def numba_matrix(run):
     if thorough:
         orders = [[h] + [x for x in HELPER_NAMES if x != h] for h in HELPER_NAMES] + [list(reversed(HELPER_NAMES))]
     run.bound = (f"{len(orders)} orders of first use x (fresh cache, same cache re-used by a second process" +
-                 (", cache off" if thorough else "") + f") x {len(HELPER_NAMES)} helper calls (both settings of drop_na) x 8 grouped frames (int, float+NaN, bool, date+NaT, timedelta+NaT, unsorted, interleaved ties + one-row group, empty)")
+                 (", cache off" if thorough else "") + f") x {len(HELPER_NAMES)} helper calls (both settings of drop_na) x 10 grouped frames (int, float+NaN, float32+NaN, bool, date+NaT, datetime+NaT, timedelta+NaT, unsorted, interleaved ties + one-row group, empty)")
     inputs = run.inputs([(o,) for o in orders])
     for (order,) in inputs:
         d = tempfile.mkdtemp(prefix="nbcache")
@@ -83,8 +83,17 @@ def numba_matrix(run):
                     continue
                 for key, val in got["res"].items():
                     h = key.split("/")[0]
-                    ok = key in ref and close(val[0], ref[key][0]) and val[1] == ref[key][1]
-                    run.check([order], ok, expected=ref.get(key), got=val, clause=f"{classify(h, order[0])}: {key} [{label}]")
+                    # values and missing positions (what C07 and C04 also rest on); the result type is a clause of C08 only.
+                    # Columns of the default widths keep the two in one clause, as before; for float32 columns they are
+                    # separate clauses, because the result type is a known finding there while the values must agree
+                    same_values = key in ref and close(val[0], ref[key][0])
+                    same_type = key in ref and val[1] == ref[key][1]
+                    if key.endswith("/float32"):
+                        run.check([order], same_values, expected=ref.get(key), got=val, clause=f"{classify(h, order[0])}: {key} [{label}]")
+                        if os.environ.get("PYVC_PROP", "C08") == "C08":
+                            run.check([order], same_type, expected=ref.get(key), got=val, clause=f"{classify(h, order[0])}: {key} result type [{label}]")
+                    else:
+                        run.check([order], same_values and same_type, expected=ref.get(key), got=val, clause=f"{classify(h, order[0])}: {key} [{label}]")
         finally:
             shutil.rmtree(d, ignore_errors=True)
 
@@ -200,6 +209,26 @@ H_CALLS = {
 }
 
 
+# documented defaults of drop_na (signatures in doc/aggregation.rst): a call that leaves the keyword out gets these
+DOC_DROP_DEFAULT = {"count": False, "count_unique": False, "first": False, "last": False, "nth": False,
+                    "max": True, "mean": True, "median": True, "min": True, "mode": True, "quantile": True,
+                    "std": True, "sum": True, "var": True}
+LEFT_OUT = "keyword left out: the documented default is in effect"
+
+
+def _variant_matches(name, kw, variant):
+    if "drop_na" not in kw:
+        return True
+    if LEFT_OUT in variant:
+        return kw["drop_na"] == DOC_DROP_DEFAULT[name]
+    return f"drop_na={kw['drop_na']}" in variant
+
+
+def _actual_kw(kw, variant):
+    """keywords actually passed: the left-out variant calls without drop_na (the oracle still uses the documented value)"""
+    return {k: v for k, v in kw.items() if not (k == "drop_na" and LEFT_OUT in variant)}
+
+
 def h_vectors(kind, maxlen):
     for n in range(maxlen + 1):
         for combo in itertools.product(range(len(H_POOLS[kind])), repeat=n):
@@ -219,13 +248,14 @@ def call_helper(name, x, kw):
 def helper_driver(name):
     kinds, calls = H_CALLS[name]
     variants = sorted({f"vector form, drop_na={kw['drop_na']}" if "drop_na" in kw else "vector form" for kw in calls})
+    if name in DOC_DROP_DEFAULT:
+        variants.append(f"vector form, {LEFT_OUT}")
     for variant in variants:
         @driver(PA + f"{name}[{variant}]")
         def _d(run, variant=variant):
             mlen = 4 if run.tier == "thorough" else 3
             run.bound = f"all vectors of <= {mlen} elements over 3-value pools (with ties and a missing value) of kinds {kinds}; arguments {calls}"
-            gen = ((k, idx, kw) for k in kinds for idx in h_vectors(k, mlen) for kw in calls
-                   if ("drop_na" not in kw) or (f"drop_na={kw['drop_na']}" in variant))
+            gen = ((k, idx, kw) for k in kinds for idx in h_vectors(k, mlen) for kw in calls if _variant_matches(name, kw, variant))
             for k, idx, kw in run.inputs(gen):
                 xs = [H_POOLS[k][i] for i in idx]
                 x = Vector(xs, H_DT[k])
@@ -233,7 +263,7 @@ def helper_driver(name):
                 if exp is None:
                     continue            # outside what the property specifies (e.g. NaN without drop_na for order statistics)
                 try:
-                    got = call_helper(name, x, kw)
+                    got = call_helper(name, x, _actual_kw(kw, variant))
                     ok = _same(got, exp)
                 except Exception as e:
                     got, ok = f"raised {type(e).__name__}: {e}", False
@@ -264,20 +294,21 @@ def group_expected(name, gs, xs, kind, kw):
 def group_driver(name):
     kinds, calls = H_CALLS[name]
     variants = sorted({f"group-wise form, drop_na={kw['drop_na']}" if "drop_na" in kw else "group-wise form" for kw in calls})
+    if name in DOC_DROP_DEFAULT:
+        variants.append(f"group-wise form, {LEFT_OUT}")
     for variant in variants:
         @driver(PA + f"{name}[{variant}]")
         def _d(run, variant=variant):
             mrow = 4 if run.tier == "thorough" else 3
             run.bound = f"all frames of <= {mrow} rows, group column in {{1,2}} in any order, x over 3-value pools of kinds {kinds}; arguments {calls}"
-            gen = ((k, gs, idx, kw) for k in kinds for gs, idx in group_frames(k, mrow) for kw in calls
-                   if ("drop_na" not in kw) or (f"drop_na={kw['drop_na']}" in variant))
+            gen = ((k, gs, idx, kw) for k in kinds for gs, idx in group_frames(k, mrow) for kw in calls if _variant_matches(name, kw, variant))
             for k, gs, idx, kw in run.inputs(gen):
                 xs = [H_POOLS[k][i] for i in idx]
                 d = DataFrame(g=Vector(gs, int), x=Vector(xs, H_DT[k]))
                 exp = group_expected(name, gs, list(d.x), k, kw)
                 if any(e is None for e in exp):
                     continue
-                kw2 = dict(kw)
+                kw2 = _actual_kw(kw, variant)
                 args = [kw2.pop("index")] if name == "nth" else [kw2.pop("q")] if name == "quantile" else []
                 try:
                     got = list(d.group_by("g").aggregate(y=getattr(di, name)("x", *args, **kw2)).y)
